@@ -3,6 +3,7 @@ import ast
 
 from ..affine import Env, Form, Lit, NonAffine, literal
 from ..heap import Analysis, fmt
+from ..trace import map_desc
 from ..model import norm, walk_own
 from ..rules_own import transform_analysis
 
@@ -65,6 +66,10 @@ def write_set(prog, rep):
                 if structural:
                     ok = False
                     why = f"the list itself is mutated ({structural[0].how} at {structural[0].loc})"
+            elif isinstance(rv, ast.Name) and map_desc(fi, rv) is not None:
+                md = map_desc(fi, rv)
+                ok = md == ([], p0, "_", None)
+                why = f"the result is built as {md}: not one entry per input event, in order, the event itself"
             elif isinstance(rv, ast.ListComp) and len(rv.generators) == 1:
                 g = rv.generators[0]
                 if g.ifs:
@@ -113,14 +118,18 @@ def category_choice(prog, rep):
         except NonAffine as ex:
             why = f"test not affine: {ex}"
     rep.check(ok, "PICK", fi.short, "deepest, later wins ties", f"{b} if len({b}) >= len({a}) else {a}", why, fi.loc())
-    for fn, key, wrap in (("_categorize_one", "$category", "_pick_category"), ("_tag_one", "$tags", None)):
+    from ..trace import deep
+
+    for fn, key, wrap in (("categorize", "$category", "_pick_category"), ("tag", "$tags", None)):
+        # (the per-event helpers of these two functions are expanded into them by the normalisation pass)
         fi = prog.func(fn)
-        e, classes = fi.params
-        asg = [n for n in walk_own(fi.node) if isinstance(n, ast.Assign) and norm(n.targets[0]) == f"{e}.data['{key}']"]
+        classes = fi.params[1]
+        asg = [n for n in walk_own(fi.node) if isinstance(n, ast.Assign) and isinstance(n.targets[0], ast.Subscript) and norm(n.targets[0].slice) == f"'{key}'" and isinstance(n.targets[0].value, ast.Attribute) and n.targets[0].value.attr == "data" and isinstance(n.targets[0].value.value, ast.Name)]
         ok = False
-        why = f"no assignment to {e}.data['{key}']"
+        why = f"no assignment to <event>.data['{key}']"
+        e = norm(asg[0].targets[0].value.value) if asg else "e"
         if len(asg) == 1:
-            v = asg[0].value
+            v = deep(asg[0].value, fi, stop=(e,))
             if wrap:
                 if isinstance(v, ast.Call) and norm(v.func) == wrap and len(v.args) == 1:
                     v = v.args[0]
@@ -211,8 +220,21 @@ def rule_match(prog, rep):
     # test: a hit is reported only for a str value in which the regex is found anywhere, and only when a regex exists
     gm = cfg_of(m)
 
+    from ..trace import deep, resolve
+
+    def rtruth(lab):
+        """truth() of self.regex, seen through a local alias (regex = self.regex)"""
+        if lab and lab[0] == "cond":
+            e_ = lab[1]
+            neg_ = False
+            while isinstance(e_, ast.UnaryOp) and isinstance(e_.op, ast.Not):
+                e_, neg_ = e_.operand, not neg_
+            if isinstance(e_, ast.Name) and norm(resolve(e_, m)) == "self.regex":
+                return lab[2] != neg_
+        return truth(lab, "self.regex")
+
     def cond_ok(c, v):
-        t = norm(c)
+        t = norm(deep(c, m, stop=(v,)))
         return any(t == f"isinstance({v}, str) and self.regex.{f}({v})" for f in ("search", "findall", "finditer"))
 
     hits = []
@@ -235,8 +257,7 @@ def rule_match(prog, rep):
         for k, n in hits:
             node = gm.node_of(n)
             # only when a regex exists
-            reach = gm.reach_filtered(gm.entry, lambda u, v, lab: truth(lab, "self.regex") is not False)
-            guarded = node not in gm.reach_filtered(gm.entry, lambda u, v, lab: truth(lab, "self.regex") is not True)
+            guarded = node not in gm.reach_filtered(gm.entry, lambda u, v, lab: rtruth(lab) is not True)
             if not guarded:
                 okt, why = False, "a hit can be reported although the rule has no regex (empty regex must never match)"
                 break
